@@ -113,6 +113,10 @@ fn body_drain(mut c: LruCache<u8, SV, BH>, steps: usize) {
 #[kani::proof]
 #[kani::unwind(7)]
 fn q_drain() { body_drain(prebuilt(2, 4), 3); }
+// the empty and the singleton cache (both cursors equal in two different ways; seed C12-h)
+#[kani::proof]
+#[kani::unwind(6)]
+fn q_drain_small() { let n: u8 = kani::any(); kani::assume(n <= 1); body_drain(prebuilt(n, 4), 2); }
 #[kani::proof]
 #[kani::unwind(7)]
 fn t_drain() { body_drain(state_t(3), 5); }
